@@ -401,3 +401,100 @@ def battery(repo, classes, name, tier, seed=0, focus=False):
                 case["params"][b] = (case["params"][b] * 3)[:ln]
         cases.append(case)
     return cases
+
+
+# --------------------------------------------------------------------------- C09: a produced result survives every consumer
+def immutability_cases(repo, classes, tier, seed=0):
+    """every data command as producer (battery inputs incl. out-of-range parameters) followed by a chain of consumers: every command
+    that can take the result in a data input of compatible fuzziness - unary ones, the single-input forms of the n-ary ones, the CSV writer"""
+    import random
+
+    rnd = random.Random(4242 + seed)
+    consumers = []
+    extra = {}
+    for ci in repo.all_classes():
+        if ci.module.relpath.endswith("csv/io.py") and ci.name == "EEMSWrite":
+            extra["EEMSWrite"] = ci
+    for cname in ALL_DATA + ["PrintVars"]:
+        decl = CommandDecl(repo, classes[cname])
+        tmpl = battery(repo, classes, cname, "quick", seed)[0]["params"]
+        step = {"module": classes[cname].module.dotted, "class": cname, "params": {}, "single": [], "lists": [], "paths": [], "fuzzy_in": None}
+        ok = True
+        for pn, p in decl.inputs.items():
+            if pn == "Metadata":
+                continue
+            if p.cls == "ResultParameter":
+                step["single"].append(pn)
+                step["fuzzy_in"] = p.is_fuzzy
+            elif p.cls == "ListParameter" and isinstance(p.value_type, ParamDecl) and p.value_type.cls == "ResultParameter":
+                step["lists"].append(pn)
+                step["fuzzy_in"] = p.value_type.is_fuzzy
+            elif p.cls == "PathParameter":
+                if p.required:
+                    step["paths"].append(pn)
+            elif pn == "Weights":
+                step["params"][pn] = [1]
+            elif pn == "NumberToConsider":
+                step["params"][pn] = 1
+            elif pn in tmpl:
+                step["params"][pn] = tmpl[pn]
+            elif p.required:
+                ok = False
+        if ok and (step["single"] or step["lists"]):
+            consumers.append(step)
+    if "EEMSWrite" in extra:
+        consumers.append({"module": extra["EEMSWrite"].module.dotted, "class": "EEMSWrite", "params": {}, "single": [], "lists": ["OutFieldNames"], "paths": ["OutFileName"],
+                          "fuzzy_in": None})
+    cases = []
+    per = 10 if tier == "quick" else 40
+    for pname in ALL_DATA:
+        pdecl = CommandDecl(repo, classes[pname])
+        fz = bool(pdecl.is_fuzzy)
+        chain = [dict(c) for c in consumers if c["fuzzy_in"] is None or c["fuzzy_in"] == fz]
+        for base in battery(repo, classes, pname, tier, seed + 5)[:per]:
+            ch = list(chain)
+            # the n-ary consumers also in a two-input form fed the same result twice (weights 1 and 3: an accumulator must not be the input itself)
+            for c in chain:
+                if c["lists"] and c["class"] != "EEMSWrite":
+                    c2 = dict(c, params=dict(c["params"]), double=True)
+                    if "Weights" in c2["params"]:
+                        c2["params"]["Weights"] = [1, 3]
+                    ch.append(c2)
+            rnd.shuffle(ch)
+            cases.append(dict(base, then=[{k: v for k, v in c.items() if k != "fuzzy_in"} for c in ch]))
+    # results holding non-finite cells and no mask at all (only their staying untouched is judged here, values are outside A-REAL)
+    nan = float("nan")
+    for pname, fz, data in (("FuzzyNot", True, [0.5, nan, -0.25, float("inf")]), ("Copy", False, [2.0, nan, -1.0, float("-inf")])):
+        if pname not in classes:
+            continue
+        chain = [dict(c) for c in consumers if c["fuzzy_in"] is None or c["fuzzy_in"] == fz]
+        for nomask in (True, False):
+            inp = {"kind": "single", "dtype": "float", "data": data, "mask": [False] * 4, "fuzzy": fz}
+            if nomask:
+                inp["nomask"] = True
+            cases.append({"module": classes[pname].module.dotted, "class": pname, "inputs": {"InFieldName": inp}, "params": {}, "shape": [4],
+                          "then": [{k: v for k, v in c.items() if k != "fuzzy_in"} for c in chain]})
+    return cases
+
+
+def judge_immutability(case, o):
+    if o.get("outcome") == "harness-error":
+        return [("harness-error", o.get("error", "")[-300:])]
+    t = o.get("then")
+    if not t:
+        return []
+    s0 = t["snapshot"]
+
+    def same(a, b):
+        if a.get("kind") != b.get("kind") or a.get("dtype") != b.get("dtype") or a.get("shape") != b.get("shape") or a.get("mask") != b.get("mask"):
+            return False
+        for x, y, m in zip(a["data"], b["data"], a["mask"]):
+            if not m and not (x == y or (isinstance(x, str) and x == y) or (not isinstance(x, str) and not isinstance(y, str) and replay.close(x, y))):
+                return False
+        return True
+
+    for rec in t["chain"]:
+        if not same(s0, rec["after"]):
+            return [("frame", "the result of %s changed after it was consumed by %s (%s): %s -> %s" % (case["class"], rec["consumer"], rec["outcome"],
+                                                                                                 {k: s0[k] for k in ("dtype", "mask", "data")}, {k: rec["after"][k] for k in ("dtype", "mask", "data")}))]
+    return []
